@@ -80,6 +80,8 @@ type MsgSpec struct {
 	WithInt  bool        `json:"with_intermediate,omitempty"`
 	Extra    [][2]string `json:"extra_headers,omitempty"` // generic headers set through SetGenHeader
 	NoUA     bool        `json:"no_ua,omitempty"`
+	// Preformatted: generic headers set through SetGenHeaderPreformatted (the caller folds them itself)
+	Preformatted [][2]string `json:"preformatted_headers,omitempty"`
 	// Middleware: message middlewares installed with WithMiddleware: footer (appends a footer to every text part, once),
 	// header (sets a generic header), encoding (switches every part to base64), attach (adds an attachment, once)
 	Middleware []string `json:"middleware,omitempty"`
@@ -306,6 +308,9 @@ func (s *MsgSpec) Build(env *Env) (*mail.Msg, error) {
 	}
 	for _, h := range s.Extra {
 		m.SetGenHeader(mail.Header(h[0]), h[1])
+	}
+	for _, h := range s.Preformatted {
+		m.SetGenHeaderPreformatted(mail.Header(h[0]), h[1])
 	}
 	if s.From.Addr != "" {
 		var err error
